@@ -255,7 +255,9 @@ def all_in_rule(chk, ctx) -> None:
 
 
 # ----------------------------------------------------------------------- C08
-def flag_verifiers(chk, ctx) -> None:
+def flag_verifiers(chk, ctx, availability_only=False) -> None:
+    """availability_only (C07): only "refused exactly when the player's flag is not set / nothing is pending" is judged -
+    how an absent index is recognised and which player is returned are C08's clauses"""
     ms = ctx.state.methods
     for op, (v, h, idx, flags) in FLAG_OPS.items():
         vf, hf, xf = ms.get(v), ms.get(h), ms.get(idx)
@@ -269,6 +271,8 @@ def flag_verifiers(chk, ctx) -> None:
         for p in ctx.paths(vf):
             cs = [unversion(c) for c in p.conds()]
             who = dflt if T.cmp('Is', P, ('const', None)) in cs else P
+            if availability_only and T.mk_not(T.truthy(P)) in cs:
+                who = dflt
             flag = T.truthy(('sub', ('self', flags), who))
             if p.raised:
                 if cs and T.mentions(cs[-1], lambda s: s == ('name', 'runout_count')):
@@ -288,6 +292,8 @@ def flag_verifiers(chk, ctx) -> None:
                     before = [unversion(x.term) for x in p.events[:k] if x.kind == 'assume']
                     ys.append((unversion(e.term), T.truthy(('sub', ('self', flags), I)) in before))
         ok_x = bool(ys) and all(t == I and g for t, g in ys)
+        if availability_only:
+            ok_ret = ok_x = True
         chk.ob('C08.flag_verifiers', f'State.{v}', ok_first and ok_ref and ok_ret and ok_h and ok_x and n_ref >= 1 and n_ret >= 2, vf.loc,
                'a per-player step is accepted for exactly the players whose flag is set (default: the first of them), refused when nothing is pending, '
                'and the verified player is returned',
